@@ -718,7 +718,7 @@ def mpf_add(s, t, prec=0, rnd=round_fast, _sub=0):
                 # Outside precision range; only need to perturb
                 if offset > 100 and prec:
                     delta = sbc + sexp - tbc - texp
-                    if delta > prec + 4:
+                    if delta > prec + 4 and offset >= tbc:
                         offset = prec + 4
                         sman <<= offset
                         if tsign == ssign: sman += 1
@@ -743,7 +743,7 @@ def mpf_add(s, t, prec=0, rnd=round_fast, _sub=0):
                 # Outside precision range; only need to perturb
                 if offset < -100 and prec:
                     delta = tbc + texp - sbc - sexp
-                    if delta > prec + 4:
+                    if delta > prec + 4 and -offset >= sbc:
                         offset = prec + 4
                         tman <<= offset
                         if ssign == tsign: tman += 1
